@@ -181,8 +181,8 @@ def _always_returns(stmts: List[ast.stmt]) -> bool:
         return bool(last.orelse) and _always_returns(last.body) and _always_returns(last.orelse)
     if isinstance(last, ast.With):
         return _always_returns(last.body)
-    if isinstance(last, ast.Try) and not last.handlers and not last.orelse:
-        return _always_returns(last.body)
+    if isinstance(last, ast.Try) and not last.orelse:
+        return _always_returns(last.body) and all(_always_returns(h.body) for h in last.handlers)
     return False
 
 
@@ -237,15 +237,38 @@ def _tailify(stmts: List[ast.stmt], k) -> Optional[List[ast.stmt]]:
                 return None
             out.append(ast.With(items=st.items, body=b or [ast.Pass()]))
             return out
-        if isinstance(st, ast.Try) and not st.handlers and not st.orelse:
-            if rest and not _always_returns(st.body):
-                return None
+        if isinstance(st, ast.Try) and not st.orelse:
             if any(isinstance(x, ast.Return) for s2 in st.finalbody for x in ast.walk(s2)):
                 return None
+            body_ret = any(isinstance(x, ast.Return) for s2 in st.body for x in ast.walk(s2))
+            if rest and not _always_returns([st]):
+                # `try: X = f() except E: return D` followed by more statements: the remainder moves into the try's
+                # else-position only when the try body itself has no return (exceptions of the remainder stay uncaught)
+                if body_ret:
+                    return None
+                hs = []
+                for h in st.handlers:
+                    if not _always_returns(h.body):
+                        return None
+                    hb = _tailify(h.body, k)
+                    if hb is None:
+                        return None
+                    hs.append(ast.ExceptHandler(type=h.type, name=h.name, body=hb or [ast.Pass()]))
+                r = _tailify(rest, k)
+                if r is None:
+                    return None
+                out.append(ast.Try(body=st.body, handlers=hs, orelse=r, finalbody=st.finalbody))
+                return out
             b = _tailify(st.body, k)
             if b is None:
                 return None
-            out.append(ast.Try(body=b or [ast.Pass()], handlers=[], orelse=[], finalbody=st.finalbody))
+            hs = []
+            for h in st.handlers:
+                hb = _tailify(h.body, k)
+                if hb is None:
+                    return None
+                hs.append(ast.ExceptHandler(type=h.type, name=h.name, body=hb or [ast.Pass()]))
+            out.append(ast.Try(body=b or [ast.Pass()], handlers=hs, orelse=[], finalbody=st.finalbody))
             return out
         return None
     out.extend(k(None))
@@ -405,7 +428,10 @@ def _coalesce_aliases(fn: ast.FunctionDef) -> bool:
                         # every binding of `a` lies textually before the alias statement, outside any loop that contains it
                         pos = (getattr(st, "lineno", 0), getattr(st, "col_offset", 0))
                         a_stores = [x for x in ast.walk(fn) if isinstance(x, ast.Name) and x.id == a and isinstance(x.ctx, (ast.Store, ast.Del))]
-                        in_loop = any(isinstance(lp, (ast.For, ast.While)) and any(y is st for y in ast.walk(lp)) for lp in ast.walk(fn))
+                        loops_of_alias = [lp for lp in ast.walk(fn) if isinstance(lp, (ast.For, ast.While)) and any(y is st for y in ast.walk(lp))]
+                        # inside a loop the alias is still a pure renaming when every binding of `a` happens in the same
+                        # loop(s), earlier in the iteration
+                        in_loop = any(not all(any(y is x for y in ast.walk(lp)) for x in a_stores) for lp in loops_of_alias)
                         if all((getattr(x, "lineno", 10**9), getattr(x, "col_offset", 0)) < pos for x in a_stores) and not in_loop and (stores.get(a) == 1 or "__" in a):
                             cand = (stmts, i, a, b, st)
                             return
